@@ -56,7 +56,7 @@ def config_json(sc):
     for o in sc['obs']:
         pipelines[o['name']] = {"workflow": f"wf_{o['name']}.json", "ingest_demand": o['ingest']}
         d = {"name": o['name'], "start": o['start'], "duration": o['duration'],
-             "instrument_demand": o['demand'], "data_product_rate": o['rate']}
+             "instrument_demand": o['demand'], "data_product_rate": o['rate'] + o.get('rate_frac', 0)}
         obs_cfg.append(d)
     cfg = {
         "instrument": {"telescope": {
@@ -271,6 +271,10 @@ def scenarios(draw, *, max_machines=6, max_obs=4, max_nodes=6,
              "wf": draw(dags(max_nodes=max_nodes,
                              speeds=tuple(sorted({m['flops'] * u for m in machines})),
                              bws=tuple(sorted({m['bw'] * u for m in machines}))))}
+        if unit == 'seconds' and rate >= 1 and mode == 'roomy' and draw(st.integers(0, 5)) == 0:
+            # the configuration states a rate that is not a whole number; the parser rounds the per-step rate, so this is the
+            # same observation as with the whole-number rate (the shadow model keeps using the rounded value)
+            o['rate_frac'] = draw(st.sampled_from([0.2, 0.3, -0.3, 0.4, -0.2]))
         obs.append(o)
     if unsorted == 'maybe':
         unsorted = draw(st.booleans())
